@@ -79,7 +79,7 @@ def run(chk):
     gather_tie(chk)
     n = 1500 if chk.tier == "quick" else 60000
     cases = [sc.gen_gather(chk.rng, i) for i in range(n)]
-    sc.run_sim(chk, cases, oracle, "sim-C20")
+    sc.run_sim(chk, cases, oracle, "sim-C20", token="gathering-done")
     return chk.finish(**FINISH)
 
 
